@@ -25,6 +25,9 @@ type stepConfOpts struct {
 	allR  bool // additionally sweep all 256 R values at the base states
 }
 
+// AspFrame: additionally check the registers visible to device callbacks (Worker.frameDiff)
+const AspFrame = 1 << 20
+
 type stepConfStats struct {
 	cases, nontrivial, outcomes, protos int64
 }
@@ -79,6 +82,9 @@ func runStepConformance(c *Ctx, o stepConfOpts) {
 	parallel(int64(len(encs)), 1, nw, func(wi int, lo, hi int64) {
 		if workers[wi] == nil {
 			workers[wi] = newWorker(bg)
+			if o.aspects&AspFrame != 0 {
+				workers[wi].enableFrame()
+			}
 		}
 		w := workers[wi]
 		var stLocal stepConfStats
@@ -118,6 +124,11 @@ func runStepConformance(c *Ctx, o stepConfOpts) {
 					}
 					outs.add(hashState(&res.Got))
 					d := w.compare(&cs, res, o.aspects)
+					if o.aspects&AspFrame != 0 {
+						if x := w.frameDiff(&cs, res); len(x) > 0 {
+							d = append(d, x...)
+						}
+					}
 					if o.extra != nil {
 						if x := o.extra(w, e, &cs, res); len(x) > 0 {
 							d = append(d, x...)
@@ -201,6 +212,13 @@ func replayStepCase(c *Ctx, raw []byte, aspects int) []string {
 	}
 	cs := caseFromJSON(&j)
 	w := newWorker(obs.NewBackground(j.Salt))
+	if aspects&AspFrame != 0 {
+		w.enableFrame()
+	}
 	res := w.stepBoth(&cs)
-	return cloneStrings(w.compare(&cs, res, aspects))
+	d := cloneStrings(w.compare(&cs, res, aspects))
+	if aspects&AspFrame != 0 {
+		d = append(d, w.frameDiff(&cs, res)...)
+	}
+	return d
 }
